@@ -272,6 +272,30 @@ Definition parse_account (cs : list N) : res (Z * list N) :=
          end
   end.
 
+(** * account.go ParseAddress (strings without '.' and '='): raw form first;
+      otherwise the base64 decoding error is ignored, so whatever complete
+      quanta precede the first bad character are used *)
+Fixpoint b64_digits_prefix (cs : list N) : list N :=
+  match cs with
+  | [] => []
+  | c :: t => match b64_digit true c with
+              | Some d => d :: b64_digits_prefix t
+              | None => []
+              end
+  end.
+
+Definition parse_address_lax (cs : list N) : res (Z * list N * bool) :=
+  match parse_raw cs with
+  | Ok (wc, a) => Ok (wc, a, true)
+  | _ =>
+      let ds := b64_digits_prefix (filter (fun c => negb (is_crlf c)) (map plus_slash cs)) in
+      match parse_human_bytes (b64_dec ds) with
+      | Ok (f, wc, a) => Ok (wc, a, go_parse_address_bounce f)
+      | Err e => Err e
+      | Panic p => Panic p
+      end
+  end.
+
 (** * TL form: uint32 little-endian workchain, 32 bytes *)
 Definition le32_bytes (v : N) : list N :=
   [v mod 256; (v / 256) mod 256; (v / 65536) mod 256; (v / 16777216) mod 256].
